@@ -754,7 +754,7 @@ func checkSymmetricGuards(p *Prog, r *Report, rule string, fn *ssa.Function, a, 
 			root, test = rx, px
 		}
 		// elements selected with a loop-carried index (a[ai] vs b[bi]) cannot be paired by name
-		if varIndexRe.MatchString(test) {
+		if varIndexRe.MatchString(test) || slicedAtVariable(inner, 0) {
 			continue
 		}
 		if seen[test] == nil {
@@ -781,6 +781,37 @@ func checkSymmetricGuards(p *Prog, r *Report, rule string, fn *ssa.Function, a, 
 		}
 		r.Fail(rule, site, p.Pos(pos[t]), "the test '"+t+"' is made on "+only+" operand only: compare(x, y) and compare(y, x) take different branches for the same pair of versions, so the comparison is not the negation of its converse")
 	}
+}
+
+// slicedAtVariable: the tested value is (derived from) a slice x[lo:hi] with a bound that is not a
+// constant — a run cut out at a loop-carried index, the slice form of a[ai].
+func slicedAtVariable(v ssa.Value, d int) bool {
+	if d > 12 {
+		return false
+	}
+	if sl, ok := v.(*ssa.Slice); ok {
+		for _, bnd := range []ssa.Value{sl.Low, sl.High} {
+			if bnd == nil {
+				continue
+			}
+			if _, isC := constInt(bnd); !isC {
+				return true
+			}
+		}
+	}
+	in, ok := v.(ssa.Instruction)
+	if !ok {
+		return false
+	}
+	if _, isPhi := v.(*ssa.Phi); isPhi {
+		return false
+	}
+	for _, op := range in.Operands(nil) {
+		if *op != nil && slicedAtVariable(*op, d+1) {
+			return true
+		}
+	}
+	return false
 }
 
 var varIndexRe = regexp.MustCompile(`\[t\d+\]`)
